@@ -12,6 +12,9 @@ checks, while a changed reaction to some reply leaves an unsolved goal whose hyp
 the offending reply sequence.
 -/
 import Flipdot.Generated.Controller
+import Flipdot.Props.C10
+import Flipdot.Props.C11
+import Flipdot.Props.C09
 set_option linter.unusedSimpArgs false
 namespace Flipdot.Tie.Controller
 open Flipdot
@@ -24,13 +27,13 @@ end G
     reply on both sides, and close each combination of cases by simplification. -/
 macro "prog_eq" : tactic => `(tactic|
   (simp only [ctrl_unfold, expect, finishResetSeq, Prog.send_bind, Prog.ite_bind, Prog.done_bind, Prog.fail_bind,
-     ownReport?_eq_some, anyReport?_eq_some]
+     ownReport_some_iff, anyReport_some_iff]
    repeat' (first
      | rfl
      | (apply send_congr; intro _)
      | (apply sendChunks_congr; intro _)
      | (funext _)
-     | (split <;> simp_all [ownReport?_eq_some, anyReport?_eq_some, ownReport?_eq_none]))))
+     | (split <;> simp_all [ownReport_some_iff, anyReport_some_iff, ownReport_none_iff]))))
 
 /-- `ensure_unconfigured`, compiled from the source, is the model's (with `Ok(())` as continuation). -/
 theorem ensureUnconfigured_eq (a : UInt16) :
@@ -93,12 +96,12 @@ theorem configureIfNeeded_eq (a : UInt16) (t : SignType) (fuel : Nat) (h : 3 ≤
   apply send_congr; intro r
   cases ho : ownReport? a r with
   | none =>
-    have hne : ∀ s, r ≠ some (.reportState a s) := ownReport?_eq_none.1 ho
-    simp [hne, ownReport?_eq_some]
+    have hne : ∀ s, r ≠ some (.reportState a s) := ownReport_none_iff.1 ho
+    simp [hne, ownReport_some_iff]
   | some s =>
-    have hr := (ownReport?_eq_some).1 ho
+    have hr := (ownReport_some_iff).1 ho
     subst hr
-    cases s <;> simp [readyStates, ownReport?_eq_some]
+    cases s <;> simp [readyStates, ownReport_some_iff]
 
 /-- `Sign::send_pages`. -/
 theorem sendPages_eq (a : UInt16) (pages : List (List UInt8)) (fuel : Nat) (h : 3 ≤ fuel) :
@@ -122,12 +125,12 @@ macro "switch_page_eq" a:ident : tactic => `(tactic|
      apply send_congr; intro r
      cases ho : ownReport? $a r with
      | none =>
-       have hne : ∀ s, r ≠ some (.reportState $a s) := ownReport?_eq_none.1 ho
-       simp [hne, ownReport?_eq_some]
+       have hne : ∀ s, r ≠ some (.reportState $a s) := ownReport_none_iff.1 ho
+       simp [hne, ownReport_some_iff]
      | some s =>
-       have hr := (ownReport?_eq_some).1 ho
+       have hr := (ownReport_some_iff).1 ho
        subst hr
-       cases s <;> simp [ctrl_unfold, Prog.send_bind, Prog.ite_bind, ownReport?_eq_some, expect]))
+       cases s <;> simp [ctrl_unfold, Prog.send_bind, Prog.ite_bind, ownReport_some_iff, expect]))
 
 /-- `Sign::load_next_page` = `switch_page(PageLoaded, PageShown, LoadNextPage)`. -/
 theorem loadNextPage_eq (a : UInt16) : ∀ fuel, G.loadNextPage a fuel = Flipdot.loadNextPage a fuel := by
@@ -142,5 +145,60 @@ theorem showLoadedPage_eq (a : UInt16) : ∀ fuel, G.showLoadedPage a fuel = Fli
 theorem shutDown_eq (a : UInt16) : G.shutDown a = Flipdot.shutDown a := by
   unfold Generated.Controller.shutDown Flipdot.shutDown
   prog_eq
+
+/-! ### C10 and C11 stated of the source text
+
+With the equalities above, the property theorems (about the model's trees) are theorems about the interaction trees
+compiled from src/sign.rs as it is today: for every reply script — of any length, with any replies — the conversation
+the source's method holds is one the documented protocol prescribes, with the prescribed outcome. -/
+
+theorem src_configure_follows_protocol (a : UInt16) (t : SignType) (fuel : Nat) (h : 3 ≤ fuel) (script : List Reply) :
+    ConfigureSpec a t ((G.configure a t fuel).run script).1 ((G.configure a t fuel).run script).2 := by
+  rw [configure_eq a t fuel h]; exact C10.configure_follows_protocol a t script
+
+theorem src_configureIfNeeded_follows_protocol (a : UInt16) (t : SignType) (fuel : Nat) (h : 3 ≤ fuel)
+    (script : List Reply) :
+    ConfigureIfNeededSpec a t ((G.configureIfNeeded a t fuel).run script).1
+      ((G.configureIfNeeded a t fuel).run script).2 := by
+  rw [configureIfNeeded_eq a t fuel h]; exact C10.configureIfNeeded_follows_protocol a t script
+
+theorem src_sendPages_follows_protocol (a : UInt16) (pages : List (List UInt8)) (fuel : Nat) (h : 3 ≤ fuel)
+    (script : List Reply) (hn : (allChunkMsgs pages).length < 65536) :
+    SendPagesSpec a pages ((G.sendPages a pages fuel).run script).1 ((G.sendPages a pages fuel).run script).2 := by
+  rw [sendPages_eq a pages fuel h]; exact C10.sendPages_follows_protocol a pages script hn
+
+theorem src_showLoadedPage_follows_protocol (a : UInt16) (fuel : Nat) (script : List Reply) :
+    SwitchSpec a .pageShown .pageLoaded .showLoadedPage
+      ((G.showLoadedPage a fuel).run script).1 ((G.showLoadedPage a fuel).run script).2 := by
+  rw [showLoadedPage_eq a fuel]; exact C10.showLoadedPage_follows_protocol a fuel script
+
+theorem src_loadNextPage_follows_protocol (a : UInt16) (fuel : Nat) (script : List Reply) :
+    SwitchSpec a .pageLoaded .pageShown .loadNextPage
+      ((G.loadNextPage a fuel).run script).1 ((G.loadNextPage a fuel).run script).2 := by
+  rw [loadNextPage_eq a fuel]; exact C10.loadNextPage_follows_protocol a fuel script
+
+theorem src_shutDown_follows_protocol (a : UInt16) (script : List Reply) :
+    ShutDownSpec a ((G.shutDown a).run script).1 ((G.shutDown a).run script).2 := by
+  rw [shutDown_eq a]; exact C10.shutDown_follows_protocol a script
+
+/-- C11 on the source text: every addressed message `configure` / `send_pages` send carries the controller's own
+    address, whatever the replies. -/
+theorem src_configure_own_address (a : UInt16) (t : SignType) (fuel : Nat) (h : 3 ≤ fuel) (script : List Reply) :
+    ∀ e ∈ ((G.configure a t fuel).run script).1, OwnOrNone a e.1 := by
+  rw [configure_eq a t fuel h]; exact C11.configure_own_address a t script
+
+theorem src_sendPages_own_address (a : UInt16) (pages : List (List UInt8)) (fuel : Nat) (h : 3 ≤ fuel)
+    (script : List Reply) :
+    ∀ e ∈ ((G.sendPages a pages fuel).run script).1, OwnOrNone a e.1 := by
+  rw [sendPages_eq a pages fuel h]; exact C11.sendPages_own_address a pages script
+
+/-- C09 on the source text: whenever `configure` reaches the configuration phase, what follows is a transfer of the
+    sign type's 16-byte block in attempts of (request, every chunk in order, chunk count, query); otherwise no data
+    message was sent at all. -/
+theorem src_configure_shape (a : UInt16) (t : SignType) (fuel : Nat) (h : 3 ≤ fuel) (script : List Reply) :
+    (∃ c1 c2, ((G.configure a t fuel).run script).1 = c1 ++ c2 ∧ EnsureOK a c1 ∧
+        AttemptShape (attemptMsgs a [.sendData 0 t.toBytes] .receiveConfig) 2 (msgsOf c2)) ∨
+    (EnsureStop a ((G.configure a t fuel).run script).1 ((G.configure a t fuel).run script).2) := by
+  rw [configure_eq a t fuel h]; exact C09.configure_shape a t script
 
 end Flipdot.Tie.Controller
